@@ -239,6 +239,10 @@ class CholLinearOperator(RootLinearOperator):
         method: Optional[str] = None,
     ) -> Union[Float[LinearOperator, "... N N"], Float[Tensor, "... N N"]]:
         inv_root = self.root.inverse()
+        if self.upper:
+            # (R^T R)^-1 = (R^-1) (R^-1)^T
+            return RootLinearOperator(inv_root)
+        # (L L^T)^-1 = (L^-T) (L^-T)^T
         return RootLinearOperator(inv_root._transpose_nonbatch())
 
     def solve(
